@@ -468,6 +468,7 @@ int main(int argc, char **argv)
   vr::init(argc, argv);
   PtrSys sys;
   if (vr::replaying()) {
+    sq::replay_symbolized(argv);
     std::string r = vr::S().replay;
     size_t c = r.find(':');
     return sq::Explorer<PtrSys>(sys, 0).replay(c == std::string::npos ? "" : r.substr(c + 1));
